@@ -156,7 +156,12 @@ func runHistory(a []string) string {
 			default:
 				return "?bad-command"
 			}
-			args = append(args, "--no-warn", f)
+			if os.Getenv("VERIF_WARN") == "1" {
+				// with the warnings klog computes after the file has been written
+				args = append(args, f)
+			} else {
+				args = append(args, "--no-warn", f)
+			}
 			code, _, _ := runSafely(e, args...)
 			status := "ok:"
 			if code == -1 {
